@@ -287,8 +287,9 @@ pub fn c09_eval(bytes: &[u8], uni: &'static str, acc: &mut Acc) {
                 }
                 Err(e) => {
                     let m = e.message();
-                    if r.semantic && !(m.contains("duplicate key") || m.contains("attempted to extend non-table type")) {
-                        acc.viol(uni, text.to_string(), None, format!("rejected, but not with a duplicate-key / wrong-type error: {:?} (spec: {})", m, r.rule));
+                    // the property demands rejection, not a particular wording: the kind of message is only tallied
+                    if r.semantic {
+                        acc.bump(if m.contains("duplicate key") || m.contains("attempted to extend non-table type") { "rejected: duplicate-key / wrong-type message" } else { "rejected: other message" });
                     }
                 }
             }
